@@ -390,13 +390,52 @@ func childMain(c *vkit.Ctx) {
 	}
 	c.LogCase(sc.ID + ":" + sc.Family)
 	plant := idx%5 == 2 && len(sc.Gens) > 1
-	obs, err, attempts, expired := e2e.RunStable(sc, c.WorkDir(), e2e.Hooks{BeforeStart: func(gen int) {
+	// The fault-free equalities are judged at quiescence. The harness can only see the upstream's half of it (every ACK written);
+	// the agent's half (every ACK read) is awaited below with a wall-clock limit. On a machine busy with other checks that limit
+	// can pass while the agent is merely starved: such an attempt is set aside and the scenario run again (three attempts; a tree
+	// that really never gets there fails all three and is judged on the last).
+	var obs *e2e.Obs
+	var err error
+	var attempts int
+	var expired []string
+	quiesceSetAside := 0
+	for try := 1; ; try++ {
+		quiesceExpired := false
+		planted, plantedIn = 0, map[string]int{}
+		work := c.WorkDir()
+		if try > 1 {
+			work = filepath.Join(work, fmt.Sprintf("again%d", try))
+		}
+		obs, err, attempts, expired = runOnce(c, sc, work, plant, &quiesceExpired)
+		if err != nil || !quiesceExpired || try == 3 {
+			break
+		}
+		if fs, _ := Judge(obs); len(fs) == 0 {
+			break
+		}
+		quiesceSetAside++
+	}
+	if quiesceSetAside > 0 {
+		c.Event("attempts_set_aside_after_quiescence_wait_expiry", quiesceSetAside)
+	}
+	finishChild(c, sc, idx, obs, err, attempts, expired)
+}
+
+func runOnce(c *vkit.Ctx, sc e2e.Scenario, work string, plant bool, quiesceExpired *bool) (*e2e.Obs, error, int, []string) {
+	return e2e.RunStable(sc, work, e2e.Hooks{BeforeStart: func(gen int) {
 		if !plant || gen != 1 {
 			return
 		}
 		// a zero-length, validly named chunk file that sorts first, in every queue directory that exists: the next generation
 		// must drop it as corrupt, count that, and keep its books straight
-		root := filepath.Join(c.WorkDir(), "sc-"+sc.ID)
+		// (the attempt RunStable is in: the last of work, work/retry2, work/retry3 that exists)
+		root := filepath.Join(work, "sc-"+sc.ID)
+		for _, r := range []string{"retry2", "retry3"} {
+			if _, err := os.Stat(filepath.Join(work, r, "sc-"+sc.ID)); err == nil {
+				root = filepath.Join(work, r, "sc-"+sc.ID)
+			}
+		}
+		planted, plantedIn = 0, map[string]int{}
 		dirs, _ := filepath.Glob(filepath.Join(root, "q*", "*"))
 		for _, d := range dirs {
 			if st, err := os.Stat(d); err == nil && st.IsDir() {
@@ -412,13 +451,20 @@ func childMain(c *vkit.Ctx) {
 			return
 		}
 		// quiescence: the upstream has acknowledged everything; give the agent a bounded moment to read those ACKs
-		for dl := time.Now().Add(1500 * time.Millisecond); time.Now().Before(dl); {
+		for dl := time.Now().Add(6 * time.Second); ; {
 			if vkit.Sum(a.GatherMetrics(), "buffer_pending_chunks", nil) == 0 {
+				break
+			}
+			if !time.Now().Before(dl) {
+				*quiesceExpired = true
 				break
 			}
 			time.Sleep(2 * time.Millisecond)
 		}
 	}}, func(o *e2e.Obs) bool { fs, _ := Judge(o); return len(fs) > 0 })
+}
+
+func finishChild(c *vkit.Ctx, sc e2e.Scenario, idx int, obs *e2e.Obs, err error, attempts int, expired []string) {
 	c.Eval(1)
 	if attempts > 1 {
 		c.Event("attempts_set_aside_after_safety_timeout_expiry", attempts-1)
